@@ -1,10 +1,14 @@
 package rules
 
 import (
+	"dstverif/schema"
 	"fmt"
 	"go/ast"
+	"go/parser"
 	"go/token"
 	"go/types"
+	"golang.org/x/tools/go/ast/astutil"
+	"regexp"
 	"strings"
 
 	"golang.org/x/tools/go/packages"
@@ -510,32 +514,124 @@ func (m *moCtx) comparatorTotal(fd *ast.FuncDecl, call *ast.CallExpr, sl types.O
 			if len(qs) != 2 || len(d.Body.List) == 0 {
 				return "comparator function shape"
 			}
-			// the return that decides when no earlier test applies: the textually last one (the tail
-			// of the body or the default arm of a final switch)
-			var last *ast.ReturnStmt
-			ast.Inspect(d.Body, func(n ast.Node) bool {
-				switch x := n.(type) {
-				case *ast.FuncLit:
-					return false
-				case *ast.ReturnStmt:
-					last = x
-				}
-				return true
-			})
-			if last == nil || len(last.Results) != 1 {
-				return "comparator function does not end in a return"
-			}
-			isP := func(o types.Object) func(ast.Expr) bool {
-				return func(x ast.Expr) bool {
-					id, ok := x.(*ast.Ident)
-					return ok && pkg.TypesInfo.Uses[id] == o
-				}
-			}
-			if direct(last.Results[0], isP(qs[0]), isP(qs[1])) || direct(last.Results[0], isP(qs[1]), isP(qs[0])) {
-				return ""
-			}
-			return "the final comparison of " + d.Name.Name + " is `" + types.ExprString(last.Results[0]) + "`, not a direct < on its two arguments: distinct keys can tie"
+			return m.e.comparatorTotal2(pkg, d, qs[0].Name(), qs[1].Name())
 		}
 	}
 	return "comparator function " + cmp.Name() + " not found in the in-scope packages"
+}
+
+// comparatorTotal2 decides that less(a, b) || less(b, a) holds for all distinct a, b, from the
+// return statements of the comparator: for every pair of returns (r1 taken by the call (a, b), r2
+// by the call (b, a)) the formula  cond1 ∧ swap(cond2) ∧ ¬(res1 ∨ swap(res2))  must be
+// unsatisfiable, where swap exchanges the two parameters, locals are replaced by their
+// definitions, comparisons of booleans are expanded (x != y is x xor y), and the only facts used
+// about < are: for the raw parameters exactly one of a < b, b < a holds (distinctness); for
+// anything else (transformed keys) at most one. A transformed key (lower-cased, trimmed,
+// projected) therefore leaves the formula satisfiable: two distinct elements can tie, and tied
+// elements keep the order in which the randomised map iteration delivered them.
+func (e *Env) comparatorTotal2(pkg *packages.Package, d *ast.FuncDecl, pa, pb string) string {
+	c := schema.CtxFor(e.Prog, pkg.PkgPath)
+	rets, ok := returnsOf(c, d)
+	if !ok || len(rets) == 0 {
+		return "path conditions of " + d.Name.Name + " not computable"
+	}
+	swapIdent := func(n string) string {
+		switch n {
+		case pa:
+			return pb
+		case pb:
+			return pa
+		}
+		return n
+	}
+	parse := func(s string) ast.Expr {
+		if s == "" {
+			s = "true"
+		}
+		x, err := parser.ParseExpr(s)
+		if err != nil {
+			return nil
+		}
+		return x
+	}
+	isBoolish := func(x ast.Expr) bool {
+		switch v := ast.Unparen(x).(type) {
+		case *ast.UnaryExpr:
+			return v.Op == token.NOT
+		case *ast.CallExpr:
+			fn := types.ExprString(v.Fun)
+			return strings.HasPrefix(fn, "strings.Contains") || strings.HasPrefix(fn, "strings.Has") || strings.HasPrefix(fn, "strings.EqualFold")
+		case *ast.BinaryExpr:
+			switch v.Op {
+			case token.LAND, token.LOR, token.EQL, token.NEQ, token.LSS, token.GTR, token.LEQ, token.GEQ:
+				return true
+			}
+		case *ast.Ident:
+			return v.Name == "true" || v.Name == "false"
+		}
+		return false
+	}
+	// normalise: swap (optional), a > b → b < a, boolean ==/!= → xnor/xor
+	var norm func(x ast.Expr, swap bool) ast.Expr
+	norm = func(x ast.Expr, swap bool) ast.Expr {
+		out := astutil.Apply(x, nil, func(cur *astutil.Cursor) bool {
+			switch v := cur.Node().(type) {
+			case *ast.Ident:
+				if swap {
+					cur.Replace(&ast.Ident{Name: swapIdent(v.Name)})
+				}
+			case *ast.BinaryExpr:
+				switch v.Op {
+				case token.GTR:
+					cur.Replace(&ast.BinaryExpr{X: v.Y, Op: token.LSS, Y: v.X})
+				case token.NEQ, token.EQL:
+					if isBoolish(v.X) && isBoolish(v.Y) {
+						xor := &ast.BinaryExpr{
+							X:  &ast.ParenExpr{X: &ast.BinaryExpr{X: &ast.ParenExpr{X: v.X}, Op: token.LAND, Y: &ast.UnaryExpr{Op: token.NOT, X: &ast.ParenExpr{X: v.Y}}}},
+							Op: token.LOR,
+							Y:  &ast.ParenExpr{X: &ast.BinaryExpr{X: &ast.UnaryExpr{Op: token.NOT, X: &ast.ParenExpr{X: v.X}}, Op: token.LAND, Y: &ast.ParenExpr{X: v.Y}}},
+						}
+						if v.Op == token.NEQ {
+							cur.Replace(&ast.ParenExpr{X: xor})
+						} else {
+							cur.Replace(&ast.UnaryExpr{Op: token.NOT, X: &ast.ParenExpr{X: xor}})
+						}
+					}
+				}
+			}
+			return true
+		})
+		return out.(ast.Expr)
+	}
+	str := func(x ast.Expr) string { return types.ExprString(canonParens(x)) }
+	lt := pa + " < " + pb
+	gt := pb + " < " + pa
+	theory := "((" + lt + ") || (" + gt + ")) && !((" + lt + ") && (" + gt + "))"
+	for _, r1 := range rets {
+		for _, r2 := range rets {
+			if len(r1.results) != 1 || len(r2.results) != 1 {
+				return "comparator returns more than one value"
+			}
+			c1, v1 := parse(r1.cond), parse(r1.results[0])
+			c2, v2 := parse(r2.cond), parse(r2.results[0])
+			if c1 == nil || v1 == nil || c2 == nil || v2 == nil {
+				return "a return of " + d.Name.Name + " is not a propositional expression over its parameters"
+			}
+			f := "(" + str(norm(c1, false)) + ") && (" + str(norm(c2, true)) + ") && !((" + str(norm(v1, false)) + ") || (" + str(norm(v2, true)) + "))"
+			// collect "x < y" atoms over transformed keys: at most one of x<y, y<x
+			extra := ""
+			for _, m := range regexp.MustCompile(`strings\.\w+\(`+pa+`\) < strings\.\w+\(`+pb+`\)`).FindAllString(f, -1) {
+				parts := strings.SplitN(m, " < ", 2)
+				extra += " && !((" + parts[0] + " < " + parts[1] + ") && (" + parts[1] + " < " + parts[0] + "))"
+			}
+			unsat, dec := unsatWith(f, theory+extra)
+			if !dec {
+				return "totality of " + d.Name.Name + " not decidable propositionally: " + f
+			}
+			if !unsat {
+				return fmt.Sprintf("%s(a, b) returning `%s` (under `%s`) and %s(b, a) returning `%s` can both be false for distinct a, b: the order of such a pair is left to the sort's input order", d.Name.Name, r1.results[0], r1.cond, d.Name.Name, r2.results[0])
+			}
+		}
+	}
+	return ""
 }
